@@ -1,3 +1,5 @@
+import SlipVerif.Model.History
 import SlipVerif.Model.Num
+import SlipVerif.Driver.History
 import SlipVerif.Driver.Num
 import SlipVerif.Driver.Util
